@@ -584,10 +584,17 @@ fn judge(
         }
         // (with the receiver dropped the reports cannot be observed)
         let receiver_dropped = r.faults_fired.contains_key("drop-receiver") || r.faults_fired.contains_key("stall-receiver");
-        if !terminal && !stopped && r.returned && !receiver_dropped {
+        // A stopped search has ended too: the first iteration always runs (it stays far below
+        // the first cancellation poll), so a report is due whenever the search returns.
+        if !terminal && r.returned && !receiver_dropped {
             stats.eval("C03:report-made");
             if bests.is_empty() {
-                v.push(Violation::new("C03", "report-made", "", format!("search {} of '{}' (depth {:?}, not stopped) ended without reporting a best line", i, spec.fen, spec.depth)));
+                v.push(Violation::new(
+                    "C03",
+                    "report-made",
+                    if stopped { "stopped" } else { "" },
+                    format!("search {} of '{}' (depth {:?}, {}) ended without reporting a best line", i, spec.fen, spec.depth, if stopped { "stopped" } else { "not stopped" }),
+                ));
             }
         }
 
@@ -689,7 +696,40 @@ fn judge(
             // the game in which *entering* a recorded position (or the root again) is a draw
             let mut drawn: HashSet<String> = recorded_before.clone();
             drawn.insert(solve::key(&pos));
-            if let Some(Val::Win(_)) = ctx.tb.probe(&pos) {
+            if ctx.tb.probe(&pos).is_none() {
+                // outside the tablebases: bounded solver; only decided answers are used
+                if let Ok(Some(n)) = solve::mate_distance(&pos, d.min(5), &drawn, 400_000) {
+                    stats.eval("C17:modified-game-mate-solver");
+                    match bests.last() {
+                        Some((line, eval)) if *eval >= POS_INF => {
+                            let child = pos.make(line[0]);
+                            if drawn.contains(&solve::key(&child)) {
+                                v.push(Violation::new(
+                                    "C17",
+                                    "repeating-move-chosen",
+                                    "solver",
+                                    format!("'{}' with recorded {:?}: reported first move {} enters a recorded position", spec.fen, recorded_before, line[0].uci()),
+                                ));
+                            }
+                        }
+                        Some((line, eval)) => v.push(Violation::new(
+                            "C17",
+                            "mate-missed",
+                            "solver",
+                            format!(
+                                "'{}' with recorded {:?}: a mate in {} plies avoiding the recorded positions exists, depth {} search ended with evaluation {} (first move {})",
+                                spec.fen,
+                                recorded_before,
+                                n,
+                                d,
+                                eval,
+                                line.first().map(|m| m.uci()).unwrap_or_default()
+                            ),
+                        )),
+                        None => {}
+                    }
+                }
+            } else if let Some(Val::Win(_)) = ctx.tb.probe(&pos) {
                 let n = modified_mate_distance(ctx, &pos, d, &drawn);
                 if let Some(n) = n {
                     stats.eval("C17:modified-game-mate");
@@ -906,7 +946,8 @@ pub fn generate(ctx: &Ctx, prop: &str, rng: &mut Rng64, thorough: bool) -> Searc
             let nhist = if thorough { *rng.pick(&[0usize, 1, 1, 2, 2, 3, 3, 4]) } else { *rng.pick(&[0usize, 1, 1, 2, 2, 3]) };
             let mut chain: Vec<Pos> = Vec::new();
             for _ in 0..nhist {
-                let q = match rng.below(8) {
+                let q = match rng.below(9) {
+                    8 => p.clone(), // the very same position, searched before (a game revisits it)
                     0..=3 => {
                         let sibs = corpus::siblings(&p);
                         if sibs.is_empty() {
@@ -945,6 +986,9 @@ pub fn generate(ctx: &Ctx, prop: &str, rng: &mut Rng64, thorough: bool) -> Searc
                 let mut faults = Vec::new();
                 if (!last && rng.chance(200)) || (last && rng.chance(150)) {
                     faults.push(Fault { kind: FaultKind::StopAtGlobalNode, at: 1 + rng.below(3000), times: 1 });
+                } else if rng.chance(100) {
+                    // a Stop that is already there when the search thread comes to life
+                    faults.push(Fault { kind: FaultKind::StopAtStep, at: rng.below(3), times: 1 });
                 }
                 case.searches.push(SearchSpec { fen: q.fen(), depth: Some(depth), seed: rng.next(), entry, rayon_threads: rt, fresh: false, history: vec![], faults });
             }
@@ -1178,6 +1222,33 @@ pub fn generate(ctx: &Ctx, prop: &str, rng: &mut Rng64, thorough: bool) -> Searc
             };
             depth = depth.min(max_d).max(1);
             case.searches.push(SearchSpec { fen: pos.fen(), depth: Some(depth), seed: rng.next(), entry, rayon_threads: rt, fresh: true, history: vec![], faults: vec![] });
+        }
+        "C17" if rng.chance(180) => {
+            // positions outside the tablebases whose mate-keeping first move is a pawn move or
+            // a capture: the recorded successor is entered by an irreversible move
+            case.dims = *rng.pick(&[(8usize, 64usize), (8, 1024)]);
+            let empty: HashSet<String> = HashSet::new();
+            let (fen, mv) = *rng.pick(corpus::IRREVERSIBLE_MATES);
+            let pos = Pos::from_fen(fen).unwrap();
+            let m = Mv::parse(mv).unwrap();
+            let succ = pos.make(m);
+            let mut drawn: HashSet<String> = HashSet::new();
+            drawn.insert(solve::key(&succ));
+            drawn.insert(solve::key(&pos));
+            let nmod = solve::mate_distance(&pos, 5, &drawn, 400_000).ok().flatten();
+            let depth = match nmod {
+                Some(n) => (n + rng.below(2) as u32).min(5),
+                None => 3,
+            };
+            let _ = empty;
+            let w = *rng.pick(&[1usize, 1, 2, 4]);
+            let organic = rng.chance(500) && !succ.legal_moves().is_empty() || rng.chance(300);
+            if organic {
+                let w0 = *rng.pick(&[1usize, 2]);
+                case.searches.push(SearchSpec { fen: succ.fen(), depth: Some(1 + rng.below(3) as u32), seed: rng.next(), entry: Entry::Sync { workers: Some(w0) }, rayon_threads: w0, fresh: true, history: vec![], faults: vec![] });
+            }
+            let history = if organic { vec![] } else { vec![succ.fen()] };
+            case.searches.push(SearchSpec { fen: pos.fen(), depth: Some(depth), seed: rng.next(), entry: Entry::Sync { workers: Some(w) }, rayon_threads: w, fresh: !organic, history, faults: vec![] });
         }
         "C17" => {
             case.dims = *rng.pick(&[(8usize, 64usize), (8, 1024)]);
